@@ -390,3 +390,46 @@ func (c *Conn) DoPipelinedSets(kv [][]byte) ([]Reply, error) {
 	}
 	return out, nil
 }
+
+// DoPipelinedSetsFramed is DoPipelinedSets for pipelines the server may answer
+// with fewer replies than SETs (a refused fold into PLSET is answered by one
+// error): the SETs go out in one write, the first reply (or quiet ms of
+// silence) is awaited, then a PING sentinel frames the rest.
+func (c *Conn) DoPipelinedSetsFramed(kv [][]byte, quiet time.Duration) ([]Reply, error) {
+	var buf []byte
+	for i := 0; i+1 < len(kv); i += 2 {
+		buf = append(buf, EncodeCommand([][]byte{[]byte("SET"), kv[i], kv[i+1]})...)
+	}
+	if err := c.SendRaw(buf); err != nil {
+		return nil, err
+	}
+	var out []Reply
+	c.c.SetReadDeadline(time.Now().Add(quiet))
+	if _, err := c.br.Peek(1); err != nil {
+		if !isTimeout(err) {
+			return nil, err
+		}
+	} else {
+		r, err := c.Read()
+		if err != nil {
+			return out, err
+		}
+		out = append(out, r)
+	}
+	if err := c.SendRaw([]byte("*1\r\n$4\r\nPING\r\n")); err != nil {
+		return out, err
+	}
+	for {
+		r, err := c.Read()
+		if err != nil {
+			return out, err
+		}
+		if r.Kind == '+' && string(r.Str) == "PONG" {
+			return out, nil
+		}
+		out = append(out, r)
+		if len(out) > 20000 {
+			return out, errors.New("resp: no PONG sentinel after 20000 replies")
+		}
+	}
+}
